@@ -1,0 +1,16 @@
+//go:build verif
+
+// Contracts checked by /verif/govc (comment-only file; adds no code).
+
+package file
+
+//@ pure func plainFileName(s string) bool = s != "." && s != ".." && in_re(s, "^[a-zA-Z0-9_.-]+$")
+
+//@ func IsValidFileName
+//@ props C09 C13
+//@ ensures[C13.plain-name] result == plainFileName(fileName)
+
+// A valid file name is a single path element: no separator, no NUL, not empty, not a dot name
+// (stated as regular-language emptiness, which the solvers decide).
+//@ lemma[C13.single-element] forall(s, string, plainFileName(s) ==> !in_re(s, "[/\\\\\\x00]") && s != "" && s != "." && s != "..")
+//@ lemma[C09.single-element] forall(s, string, plainFileName(s) ==> !in_re(s, "[/\\\\\\x00]") && s != "" && s != "." && s != "..")
